@@ -32,6 +32,12 @@ CLAIMS = {
  "C10": dict(cat="other", design="DESIGN.md §3 C10",
    text="Effect footprint of sign/sign_with_timestamp/clear_signatures (every assignment and mutable borrow rooted at self) is exactly {metadata.signature}; the new signature header's provenance is SignatureHeaderBuilder::new() plus digest (plus the fresh signature) with nothing of the old header; the OpenPGP-algorithm -> legacy tag arm table and the issuer-count guard's operand provenance in signature_key_ids (both branches) are checked. These make header/payload immutable under any history and forbid stale signatures; which key verifies is a runtime/crypto question and is not decided.",
    technique="effect-footprint analysis + provenance terms + arm-table extraction"),
+ "C04": dict(cat="other", design="DESIGN.md §3 C04",
+   text="Complete audit of every panic-/abort-capable or allocating MIR construct (Assert terminators incl. overflow and bounds checks, unwrap/expect/panic/indexing/slice-precondition calls, allocation calls) on the call-graph cone of the read-side API. Each site must be discharged by an interval/guard argument, by infeasibility under a predicate abstraction, or by a reviewed allow-list entry whose precondition is re-checked mechanically; any other site - in particular any new one - is a violation. Also: loops over a decoded count must fail or consume input each iteration. Universal over all inputs because it covers every site; panics inside dependencies are trusted.",
+   technique="call-graph cone + panic-site enumeration + interval/guard dataflow + predicate-abstraction infeasibility + checked allow-list"),
+ "C17": dict(cat="other", design="DESIGN.md §3 C17",
+   text="Same site audit as C04 over the cone of all public builder-side entry points, plus an abstract evaluation of Compressor::try_from per CompressionWithLevel variant with a symbolic level showing every path to flate2/liblzma/bzip2 constructors implies their accepted level range, plus result-discipline rules for Path decomposition in add_data and the capability error mapping. Three genuine panics (try_into().unwrap() on caller-supplied timestamps) are recorded as known findings.",
+   technique="panic-site audit (as C04) + abstract interpretation with interval predicates for external partial functions"),
 }
 
 NA = {
